@@ -14,6 +14,21 @@ pub fn case(cs: u64, unsafe_finalize: bool, args: &Args, mons: &mut Mons, case: 
     }
     let shape = cfg.shape;
     let mut model = DagGen::new(cfg, &mut rng).build();
+    if unsafe_finalize && rng.bool() {
+        // Also end the DAG with an explicit merge command over two parallel finalize branches,
+        // so the error is exercised through add_commands(merge) and not only through commit.
+        let tips = model.frontier(&all_bits(&model));
+        'find: for &a in &tips {
+            for &b in &tips {
+                if a < b && model.braid(&[a, b]).is_err() {
+                    let id = merge_id(&model.node(a).id, &model.node(b).id);
+                    let (l, r) = if model.node(a).id <= model.node(b).id { (a, b) } else { (b, a) };
+                    model.push(Node { id, par: Par::Merge(l, r), prio: Prio::Merge, script: Script { tag: u32::MAX, quiet: true, ops: vec![] }, max_cut: 0 });
+                    break 'find;
+                }
+            }
+        }
+    }
     let all = all_bits(&model);
     let n_hist = if unsafe_finalize { 2 } else { args.tier.pick(4, 5) };
     let merges = (0..model.len()).filter(|&v| matches!(model.node(v).par, Par::Merge(..))).count();
